@@ -658,6 +658,7 @@ func (x *fnCtx) setElemArr(st *State, elem types.Type, ref *Term, leaf int, nv *
 func (x *fnCtx) newRef(st *State, hint string) *Term {
 	r := Fresh(hint, SInt)
 	allocSyms[r] = true
+	allocSymNames[r.Op] = true
 	alloc := x.heapArr(st, "$alloc", ArrSort(SInt, SBool))
 	st.assume(Not(Select(alloc, r)))
 	st.assume(Lt(IntLit(0), r))
